@@ -149,8 +149,7 @@ def gen_targets():
         "startElement": "XalanSourceTreeElement*consttheNewElement=createElementNode(name,attrs,m_currentElement);" + (append5 % "theNewElement") +
                         "m_elementStack.push_back(theNewElement);m_lastChildStack.push_back(m_lastChild);m_currentElement=theNewElement;m_lastChild=0;",
         "endElement": "m_elementStack.pop_back();m_currentElement=m_elementStack.back();m_lastChild=m_lastChildStack.back();m_lastChildStack.pop_back();",
-        "characters": "if(m_documentFragment!=0){m_textBuffer.append(chars,length);}elseif(m_currentElement==0){if(isXMLWhitespace(chars)==false)"
-                      "{throwXalanDOMException(XalanDOMException::HIERARCHY_REQUEST_ERR);}}else{m_textBuffer.append(chars,length);}",
+        "characters": None,
         "charactersRaw": "doProcessingInstruction(s_piTarget,s_piData);characters(chars,length);",
         "entityReference": "",
         "ignorableWhitespace": None,
@@ -174,6 +173,19 @@ def gen_targets():
                 facts["s_flush_startElement"], facts["s_element_created_after_flush"] = False, True
             else:
                 raise AnchorError(S + "::startElement: not one of the modelled shapes ([flush] create link / create flush link): %r" % b[:200])
+            continue
+        if ev == "characters":
+            # the white-space test at the top of a document: over the NUL-terminated buffer (K-C05t-2) or over the length passed
+            shape = ("if(m_documentFragment!=0){m_textBuffer.append(chars,length);}elseif(m_currentElement==0){if(%s==false)"
+                     "{throwXalanDOMException(XalanDOMException::HIERARCHY_REQUEST_ERR);}}else{m_textBuffer.append(chars,length);}")
+            fl_, rest = _split_flush(b)
+            if rest == shape % "isXMLWhitespace(chars)":
+                facts["s_top_ws_test_uses_length"] = False
+            elif rest == shape % "isXMLWhitespace(chars,0,length)":
+                facts["s_top_ws_test_uses_length"] = True
+            else:
+                raise AnchorError(S + "::characters: not the modelled shape (fragment: append; document top: white-space test; else append): %r" % rest[:200])
+            facts["s_flush_characters"] = fl_
             continue
         if ev == "endDocument":
             # the flush of endDocument() is conditional: fragment mode only
@@ -300,6 +312,7 @@ def gen_targets():
         else:
             text += "Definition s_flush_%s : bool := %s.\n" % (ev, _b(facts["s_flush_" + ev]))
     text += "Definition s_cdata_is_characters : bool := %s.\n" % _b(facts["s_cdata_is_characters"])
+    text += "Definition s_top_ws_test_uses_length : bool := %s.\n" % _b(facts["s_top_ws_test_uses_length"])
     text += "Definition s_element_created_after_flush : bool := %s.\n" % _b(facts["s_element_created_after_flush"])
     text += "Definition st_first_index : N := %d%%N.\n" % facts["st_first_index"]
     for k in ("pi_marker_target", "pi_marker_data", "xmlns_uri", "xmlns_name", "xmlns_with_sep"):
